@@ -5,6 +5,8 @@ import Ufw.Tie.EndpFns.SinkAdapt
 import Ufw.Tie.EndpFns.SourceAdapt
 import Ufw.Tie.EndpFns.SinkPutChunk
 import Ufw.Tie.EndpFns.SourceGetChunk
+import Ufw.Tie.EndpFns.StsCbc
+import Ufw.Tie.EndpFns.StsLoops
 #print axioms Ufw.Props.C17.get_chunk_exact
 #print axioms Ufw.Props.C17.get_chunk_refuses
 #print axioms Ufw.Props.C17.get_atmost_le
@@ -62,3 +64,21 @@ import Ufw.Tie.EndpFns.SourceGetChunk
 #print axioms Ufw.Tie.EndpFns.gen_once_source_get_chunk
 #print axioms Ufw.Tie.EndpFns.get_loop
 #print axioms Ufw.Tie.EndpFns.gen_source_get_chunk
+#print axioms Ufw.Tie.EndpFns.tr_sx32
+#print axioms Ufw.Tie.EndpFns.tr_ofNat
+#print axioms Ufw.Tie.EndpFns.tr_rc64
+#print axioms Ufw.Tie.EndpFns.gen_sink_put_octet
+#print axioms Ufw.Tie.EndpFns.gen_source_get_octet
+#print axioms Ufw.Tie.EndpFns.sx_rc32
+#print axioms Ufw.Tie.EndpFns.put_retry_loop
+#print axioms Ufw.Tie.EndpFns.gen_sts_cbc
+#print axioms Ufw.Tie.EndpFns.snk_call_script
+#print axioms Ufw.Tie.EndpFns.putRetry_script
+#print axioms Ufw.Tie.EndpFns.sts_cbc_keeps
+#print axioms Ufw.Tie.EndpFns.rc64_neg_iff
+#print axioms Ufw.Tie.EndpFns.sts_cbc_ok_le
+#print axioms Ufw.Tie.EndpFns.sts_cbc_not_diverge
+#print axioms Ufw.Tie.EndpFns.drain_loop
+#print axioms Ufw.Tie.EndpFns.gen_sts_drain_cbc
+#print axioms Ufw.Tie.EndpFns.n_loop
+#print axioms Ufw.Tie.EndpFns.gen_sts_n_cbc
